@@ -267,6 +267,13 @@ class GwTarget(object):
         self.log.append(("ow", dict(kwargs)))
 
     @server.expose
+    def drop(self, **kwargs):
+        """runs, and then the connection it was called on is reset before the reply can be written (a network fault after delivery)"""
+        self.log.append(("drop", dict(kwargs)))
+        current_context.client.sock.do_reset()
+        return "never-arrives"
+
+    @server.expose
     @property
     def attr(self):
         self.log.append(("attr", {}))
